@@ -268,8 +268,7 @@ static void run_case(long caseid, vf_result *r)
 	int n = F_len[L];
 	memcpy(ops, F_ops[L], (size_t)n * sizeof(int));
 	ops[n++] = op;
-	vf_drv.run_hist(g_tier, ops, n, r);
-	if (r->desc[0] == '\0') {
+	{
 	    size_t off = 0;
 	    for (int i = 0; i < n && off < sizeof(r->desc) - 80; ++i) {
 		char nm[64];
@@ -281,6 +280,7 @@ static void run_case(long caseid, vf_result *r)
 			"%s%s", i ? " ; " : "", nm);
 	    }
 	}
+	vf_drv.run_hist(g_tier, ops, n, r);
     }
 }
 
@@ -549,15 +549,17 @@ static int run_isolated(long caseid, double timeout, char *sig, size_t sn,
 {
     fflush(NULL);
     A->iso_valid = 0;
+    A->iso.desc[0] = '\0';
+    desc[0] = '\0';
     pid_t pid = fork();
     if (pid == 0) {
 	redirect_stderr();
 	signal(SIGALRM, SIG_DFL);
 	set_alarm(timeout);
-	vf_result *r = malloc(sizeof(*r));
-	run_case(caseid, r);
+	/* result lives in shared memory so that what was filled in before
+	   a crash (the case description) survives */
+	run_case(caseid, &A->iso);
 	set_alarm(0);
-	memcpy(&A->iso, r, sizeof(*r));
 	A->iso_valid = 1;
 	_exit(0);
     }
@@ -576,8 +578,7 @@ static int run_isolated(long caseid, double timeout, char *sig, size_t sn,
 	return 0;
     }
     classify_crash(ws, sig, sn, msg, mn, log, ln);
-    if (A->iso.desc[0] && !A->iso_valid)
-	;
+    snprintf(desc, dn, "%s", A->iso.desc);
     return 1;
 }
 
@@ -806,9 +807,24 @@ int main(int argc, char **argv)
 
     if (strcmp(argv[1], "count") == 0) {
 	if (vf_drv.init) vf_drv.init(g_tier);
-	if (vf_drv.bfs)
-	    printf("{\"bfs\":1,\"nops\":%d,\"maxdepth\":%d}\n",
-		    vf_drv.nops(g_tier), vf_drv.maxdepth(g_tier));
+	if (vf_drv.bfs) {
+	    /* key of the initial state (empty history) */
+	    vf_result *r = calloc(1, sizeof(*r));
+	    snprintf(g_prefix, sizeof(g_prefix), "/var/tmp/vf-init-%d",
+		    (int)getpid());
+	    char dir[600];
+	    snprintf(dir, sizeof(dir), "%s.d", g_prefix);
+	    mkdir(dir, 0755);
+	    vf_drv.run_hist(g_tier, NULL, 0, r);
+	    snprintf(dir, sizeof(dir), "rm -rf '%s.d'", g_prefix);
+	    if (system(dir) != 0)
+		;
+	    printf("{\"bfs\":1,\"nops\":%d,\"maxdepth\":%d,"
+		    "\"init\":\"%016llx%016llx\"}\n",
+		    vf_drv.nops(g_tier), vf_drv.maxdepth(g_tier),
+		    (unsigned long long)fnv64(r->key, 0),
+		    (unsigned long long)fnv64(r->key, 0x5bd1e995));
+	}
 	else
 	    printf("{\"bfs\":0,\"count\":%ld}\n", vf_drv.count(g_tier));
 	return 0;
